@@ -338,7 +338,16 @@ def oracle_generations(args):
         {"problems": []}, "; ".join(problems[:2]) or "ok"
 
 
-ORACLES = {"stack_weights": oracle_stack_weights, "batch": oracle_batch, "generations": oracle_generations}
+@safe_oracle
+def oracle_stack_ops(args):
+    """a script of SpawnStack operations (next_zeta / weight / spawn_size / spawn / children weights) on a given tree runs through:
+    every crossing - also the one that exhausts the stack - can be followed by spawn()"""
+    ops = [tuple(o) for o in args["ops"]]
+    out = run_ops(copy.deepcopy(args["tree"]), float(args["base"]), ops)
+    return True, {"results": len(out)}, {}, "ok"
+
+
+ORACLES = {"stack_ops": oracle_stack_ops, "stack_weights": oracle_stack_weights, "batch": oracle_batch, "generations": oracle_generations}
 
 
 def run(ctx):
@@ -375,7 +384,18 @@ def run(ctx):
         lines.append(["stack"] + tree_tokens(tree) + [fb(base)] + ops_tokens(ops))
     outs = ctx.model.run(lines)
     for (tree, base, ops, depth), o in zip(cases, outs):
-        impl = run_ops(tree, base, ops)
+        try:
+            impl = run_ops(tree, base, ops)
+        except Exception as e_:  # noqa
+            from ..core import raised_in_repo
+            if not raised_in_repo(e_):
+                raise
+            a_ = {"tree": tree, "base": base, "ops": [list(op) for op in ops]}
+            ok, obs, req, text = oracle_stack_ops(a_)
+            ctx.case(None)
+            if not ok:
+                ctx.oracle_fail("stack-ops-raised", "stack_ops", a_, obs, req, text)
+            continue
         groups, cur = [], []
         for t in o[1:]:
             if t == ";":
